@@ -185,3 +185,45 @@ pub fn error_wellformed(input: &str, shown: &str) -> Result<(usize, usize, usize
     }
     Ok((l, c, carets))
 }
+
+/// Owner of data that engine values borrow for the duration of one case.
+/// `keep_*` hand out `'static` references for convenience; they are only valid
+/// while the arena lives, so declare the arena FIRST in the case function (it is
+/// then dropped last, after every context that borrows from it).
+#[derive(Default)]
+pub struct Arena {
+    strs: Vec<Box<str>>,
+    bytes: Vec<Box<[u8]>>,
+    values: Vec<Box<serde_json::Value>>,
+    schemes: Vec<Box<Scheme>>,
+}
+
+impl Arena {
+    pub fn new() -> Self {
+        Self::default()
+    }
+    pub fn keep_str(&mut self, s: String) -> &'static str {
+        let b = s.into_boxed_str();
+        let p: *const str = &*b;
+        self.strs.push(b);
+        unsafe { &*p }
+    }
+    pub fn keep_bytes(&mut self, v: Vec<u8>) -> &'static [u8] {
+        let b = v.into_boxed_slice();
+        let p: *const [u8] = &*b;
+        self.bytes.push(b);
+        unsafe { &*p }
+    }
+    pub fn keep_value(&mut self, v: serde_json::Value) -> &'static serde_json::Value {
+        let b = Box::new(v);
+        let p: *const serde_json::Value = &*b;
+        self.values.push(b);
+        unsafe { &*p }
+    }
+    pub fn keep_scheme(&mut self, s: Scheme) -> &'static Scheme {
+        let b = Box::new(s);
+        let p: *const Scheme = &*b;
+        self.schemes.push(b);
+        unsafe { &*p }
+    }
+}
